@@ -198,7 +198,8 @@ class Ctx:
 
 def build_and_run(program, style, mode):
     """program: tuple of (time_ns, target_idx, kind, beh).  Returns the Ctx after the run."""
-    end_ns, attach = mode
+    end_ns, attach = mode[0], mode[1]
+    inject = mode[2] if len(mode) > 2 else None  # (k, dt): pause after k deliveries, schedule an event at now+dt
     c = Ctx()
     a, b = Scripted("A", c), Scripted("B", c)
     c.ents = [a, b]
@@ -240,7 +241,23 @@ def build_and_run(program, style, mode):
     if attach:
         sim.control  # noqa: B018  (selects the instrumented loop)
     c.end_ns = end_ns
-    c.summary = sim.run()
+    if inject is None:
+        c.summary = sim.run()
+        return c
+    # external injection while paused: pause before the first delivery, step k, schedule, resume
+    k, dt = inject
+    ctl = sim.control
+    ctl.pause()
+    sim.run()
+    if k > 0 and ctl.is_paused:
+        ctl.step(k)
+    if ctl.is_paused:
+        last = c.deliveries[-1][0] if c.deliveries else None
+        now = ctl.get_state().current_time.nanoseconds
+        ev = c.mk(now + dt, a, ("nop",), by=last)
+        c.reg[ev.context["metadata"]["seq"]]["clock"] = now
+        sim.schedule(ev)
+        c.summary = ctl.resume()
     return c
 
 
@@ -453,6 +470,8 @@ def main(tier, seed, only=None):
         fams.append(("p2-full", 2, BEH_FULL, (0, 1, 2), False, STYLES, MODES))
         fams.append(("p3-small", 3, BEH_SMALL, (1, 2), False, ["list", "preconstruct"], [(None, False), (2, False)]))
         fams.append(("p2-crash-2targets", 2, BEH_CRASH, (0, 1, 2), True, ["list", "reversed"], MODES))
+        fams.append(("p2-inject-paused", 2, BEH_SMALL, (0, 1, 2), False, ["list"],
+                     [(e, True, (k, dt)) for e in (None, 3) for k in (0, 1, 2, 3) for dt in (0, 1)]))
         fams.append(("p3-bulk", 3, BEH_BULK, (0, 1), False, ["list"], [(None, False), (3, True)]))
         fams.append(("p3-futures", 3, BEH_FUT, (0, 1), False, ["list"], [(None, False), (None, True), (3, False)]))
     else:
@@ -461,6 +480,8 @@ def main(tier, seed, only=None):
         fams.append(("p3-full", 3, BEH_FULL, (0, 1, 2), False, ["list", "preconstruct"], MODES))
         fams.append(("p4-small", 4, BEH_SMALL, (1, 2), False, ["list"], [(None, False), (2, False)]))
         fams.append(("p2-crash-2targets", 2, BEH_CRASH, (0, 1, 2), True, STYLES, MODES))
+        fams.append(("p2-inject-paused", 2, BEH_FULL, (0, 1, 2), False, ["list", "reversed"],
+                     [(e, True, (k, dt)) for e in (None, 3) for k in (0, 1, 2, 3, 4) for dt in (0, 1, 2)]))
         fams.append(("p3-bulk", 3, BEH_BULK + [("bulk", 31), ("bulk", 33), ("bulkmix", 64)], (0, 1, 2), False, ["list", "reversed"], MODES))
         fams.append(("p3-futures", 3, BEH_FUT, (0, 1, 2), True, ["list", "reversed"], MODES))
     for f in fams:
